@@ -198,7 +198,7 @@ def gen_bin_random(rng, n_cases, nmax):
     cases = []
     for _ in range(n_cases):
         n = rng.randrange(1, nmax + 1)
-        kind = rng.choice(["asc", "asc", "asc-inf", "unsorted", "nanbin", "strict-wide"])
+        kind = rng.choice(["asc", "asc", "asc-inf", "unsorted", "nanbin", "strict-wide", "edges"])
         if kind == "strict-wide":
             bins = sorted(rng.sample(range(-40, 40), n))
         else:
@@ -215,6 +215,11 @@ def gen_bin_random(rng, n_cases, nmax):
         if kind not in ("asc", "strict-wide") or any(b != int(b) for b in bins):
             bdt = "float64"
         vals = [rng.randrange(-16, 17) / 4 for _ in range(12)] + [NAN, INF, -INF]
+        if kind == "edges":       # operands that differ in the last bit of either precision
+            ddt, bdt = rng.choice(["float32", "float32", "float64", "int32", "int64"]), "float64"
+            cells, bins = gen_edges(rng, ddt, 4, n)
+            vals = cells + ([] if ddt.startswith("int") else [NAN, INF, -INF])
+            n = len(bins)
         newv = [rng.randrange(0, 50) for _ in range(n)]
         c = bin_case(toks(bins), toks(vals), toks(newv), ddt, bdt)
         c["gen"] = kind
@@ -312,8 +317,89 @@ def parse_res(rep):
     return ("ok", [untok(t) for t in cls.split(",")] if cls else [], [Fraction(b) for b in bins.split(",")] if bins else [])
 
 
+# ---------------------------------------------------------------------------------------------- precision edges
+def nx32(x, up):
+    """the float32 neighbour of the float32 value x (as a python float)"""
+    return float(np.nextafter(np.float32(x), np.float32(INF if up else -INF)))
+
+
+def nx64(x, up):
+    return math.nextafter(float(x), INF if up else -INF)
+
+
+def edge_base(rng):
+    """a double that single precision cannot hold (or can: dyadics are in the pool too)"""
+    k = rng.choice(["decimal", "decimal", "third", "uniform", "big", "tiny", "huge", "dyadic"])
+    if k == "decimal":
+        return rng.randrange(-30, 200) / rng.choice([10, 100, 1000])
+    if k == "third":
+        return rng.randrange(-10, 60) / rng.choice([3, 7, 9])
+    if k == "uniform":
+        return rng.uniform(-1, 1) * rng.choice([1e-6, 1, 1e3, 1e7])
+    if k == "big":                      # integers beyond 2**24: every second / fourth ... one is a float32
+        return float(2 ** rng.choice([24, 25, 26, 30]) + rng.randrange(0, 40))
+    if k == "tiny":
+        return rng.randrange(1, 100) * rng.choice([1e-30, 1e-39, 1e-44])     # incl. float32 subnormals
+    if k == "huge":
+        return rng.uniform(1, 3) * rng.choice([1e20, 1e38])
+    return rng.randrange(-64, 64) / 8
+
+
+def gen_edges(rng, dtype, n_cells, n_bins):
+    """cells of the raster's dtype and float64 bounds that sit on / one ulp (of either precision) beside /
+    half way between them: the comparison `cell <= bound` is decided by the last bits of both operands"""
+    cells, cand = [], []
+    ints = np.issubdtype(np.dtype(dtype), np.integer)
+    lim = 2 ** 31 - 1 if dtype == "int32" else 2 ** 53
+    for _ in range(max(1, n_cells)):
+        b = edge_base(rng)
+        if ints:
+            x = int(max(-lim, min(lim, round(b) if abs(b) < 1e15 else lim - rng.randrange(0, 9))))
+            cells += [x, x + rng.choice([-1, 1, 2])] if abs(x) < lim - 2 else [x]
+            cand += [float(x), x - 0.5 if abs(x) < 2 ** 51 else float(x), x + 0.5 if abs(x) < 2 ** 51 else float(x),
+                     nx64(x, True), nx64(x, False), float(x + 1), b]
+        elif dtype == "float32":
+            if not abs(b) < 3e38:
+                b = math.copysign(3e38, b)
+            x = float(np.float32(b))
+            up, dn = nx32(x, True), nx32(x, False)
+            cells += rng.sample([x, x, up, dn], rng.randrange(1, 4))
+            cand += [b, x, nx64(x, True), nx64(x, False), nx64(b, True), nx64(b, False), up, dn]
+            if math.isfinite(up):
+                mid = (x + up) / 2                  # exact in double precision; ties-to-even decides its float32
+                cand += [mid, nx64(mid, True), nx64(mid, False)]
+        else:
+            cells += rng.sample([b, b, nx64(b, True), nx64(b, False)], rng.randrange(1, 4))
+            cand += [b, nx64(b, True), nx64(b, False), float(np.float32(b)) if abs(b) < 3e38 else b]
+    cand = [c for c in cand if math.isfinite(c)]
+    bins = sorted(set(rng.sample(cand, min(len(cand), max(1, n_bins)))))
+    return cells, bins
+
+
+def gen_reclass_edges(rng):
+    dtype = rng.choice(["float32", "float32", "float32", "float64", "int32", "int64"])
+    h, w = rng.randrange(1, 4), rng.randrange(1, 5)
+    cells, bins = gen_edges(rng, dtype, rng.randrange(1, 5), rng.randrange(1, 9))
+    vals = [rng.choice(cells) for _ in range(h * w)]
+    for i, v in enumerate(rng.sample(cells, min(len(cells), h * w))):
+        vals[i] = v
+    if np.issubdtype(np.dtype(dtype), np.integer):
+        a = np.array(vals, dtype=np.int64).astype(dtype).reshape(h, w)
+    else:
+        a = np.array(vals, dtype=np.float64).astype(dtype).reshape(h, w)
+        if rng.random() < 0.3:
+            a[rng.randrange(h), rng.randrange(w)] = rng.choice([np.nan, np.inf, -np.inf])
+    if rng.random() < 0.15:
+        bins[-1] = INF
+    newv = [rng.randrange(0, 100) for _ in bins]
+    return dict(kind="reclassify", raster=raster_json(a), bins=toks(bins), newv=toks(newv),
+                backend=rng.choice(["numpy", "numpy", "dask"]), gen="edges")
+
+
 # ---------------------------------------------------------------------------------------------- reclassify / binary
-def gen_reclass(rng):
+def gen_reclass(rng, edges=None):
+    if edges or (edges is None and rng.random() < 0.3):
+        return gen_reclass_edges(rng)
     a, kind = gen_raster(rng, kind=rng.choice(["small", "ties", "half"]))
     n = rng.randrange(1, 9)
     bins = sorted(rng.randrange(-4, 26) / 2 for _ in range(n))
@@ -333,7 +419,7 @@ def run_reclass(c):
     from xrspatial.classify import reclassify
     a = raster_from(c["raster"])
     bins = [untok(t) for t in c["bins"]]
-    if all(b == int(b) for b in bins if math.isfinite(b)) and all(math.isfinite(b) for b in bins):
+    if all(math.isfinite(b) and b == int(b) and abs(b) < 2 ** 53 for b in bins):
         bins = [int(b) for b in bins]
     newv = [int(untok(t)) for t in c["newv"]]
     st, out = call(reclassify, mk(a, c["backend"]), bins, newv)
@@ -356,6 +442,32 @@ def oracle_reclass(c, a, bins, newv, st, out):
         if not same(o, exp):
             return f"reclassify[{c['backend']}]: cell {v!r} bins {bins} new_values {newv}: got {o}, expected {exp}"
     return None
+
+
+def shrink_reclass(c, bad):
+    """a smaller case that still fails: one cell on the numpy backend, then as few bins as possible"""
+    def fails(c2):
+        try:
+            return oracle_reclass(c2, *run_reclass(c2))
+        except Exception:  # noqa: BLE001 -- a candidate the code cannot digest is simply not a smaller failing case
+            return None
+    if len(c["bins"]) != len(c["newv"]):
+        return c, bad
+    for t in c["raster"]["vals"]:
+        c2 = dict(c, raster=dict(c["raster"], shape=[1, 1], vals=[t]), backend="numpy")
+        b2 = fails(c2)
+        if b2:
+            c, bad = c2, b2
+            break
+    i = 0
+    while len(c["bins"]) > 1 and i < len(c["bins"]):
+        c2 = dict(c, bins=c["bins"][:i] + c["bins"][i + 1:], newv=c["newv"][:i] + c["newv"][i + 1:])
+        b2 = fails(c2)
+        if b2:
+            c, bad = c2, b2
+        else:
+            i += 1
+    return c, bad
 
 
 def gen_binary(rng):
@@ -801,6 +913,7 @@ def eval_case_(r, c, drv_reply=None, stream=None):
         a, bins, newv, st, out = run_reclass(c)
         bad = oracle_reclass(c, a, bins, newv, st, out)
         if bad:
+            c, bad = shrink_reclass(c, bad)
             r.fail("reclassify:first-bin", bad, c)
             return True
         if drv_reply is not None and st == "ok":
@@ -866,7 +979,8 @@ def model_request(c):
     if kind == "reclassify":
         if len(c["bins"]) != len(c["newv"]) or not c["bins"]:
             return None
-        return f"bin bins={','.join(c['bins'])} newv={','.join(c['newv'])} vals={cells_tok(a)}"
+        # through `_run_numpy_bin`'s casts as read from the source (Gen.runBinCasts), for this raster dtype
+        return f"bin bins={','.join(c['bins'])} newv={','.join(c['newv'])} vals={cells_tok(a)} ddt={a.dtype.name}"
     if kind == "binary":
         h, w = a.shape
         vals = [untok(t) for t in c["values"]]
@@ -934,12 +1048,34 @@ def stream_jenks(r, drv, cases):
         check_jenks(r, c, reps[2 * i], reps[2 * i + 1])
 
 
+def stream_round32(r, drv, n):
+    """the driver's `roundF32` (used when the source casts an operand to float32) against numpy's conversion"""
+    rng = r.rng
+    xs = []
+    for _ in range(n):
+        b = edge_base(rng)
+        if not abs(b) < 3e38:
+            continue
+        x = float(np.float32(b))
+        up = nx32(x, True)
+        xs += [b, x] + ([(x + up) / 2, nx64((x + up) / 2, True), nx64((x + up) / 2, False)] if math.isfinite(up) else [])
+    reps = drv.ask([f"round32 q={tok(x)}" for x in xs])
+    for x, rep in zip(xs, reps):
+        r.case(dict(kind="round32", x=tok(x)), nontrivial=True, tags=["round32"])
+        try:
+            ok = Fraction(rep) == Fraction(float(np.float32(x)))
+        except ValueError:
+            ok = False
+        if not ok:
+            r.disagree("round32", dict(kind="round32", x=tok(x)), tok(float(np.float32(x))), rep[:80])
+
+
 def check_facts(r, drv):
     """the generated facts the theorems rely on must be what the driver was built with"""
     rep = drv.ask(["class_facts"])[0]
     r.extra["class_facts"] = rep
     want = ["shape_ok=true", "canonical=true", "kclass=float64", "nb_jenks=true", "nb_fallback=true", "qgrid=true",
-            "eqint=true"]
+            "eqint=true", "casts=true", "chain=true"]
     missing = [w for w in want if w not in rep.split()]
     if missing:
         r.notes.append("generated facts differ from what Props/C12.lean requires: " + ", ".join(missing))
@@ -953,7 +1089,9 @@ def run(r, scale=1):
               "positions + NaN/inf, 5 dtype pairs) + random ascending/+-inf/unsorted/NaN bins; classifiers: rasters <= 4x5 on "
               "integer / half-integer / wide lattices, ties, NaN/+-inf cells, float32/float64/int32/int64, values not "
               "representable in float32 (0.1, 1/3, 2^24+1, ...), numpy and dask backends, k in 1..12 (+23/29/31/36 for "
-              "quantile), sampled natural_breaks; Jenks tables on sorted samples n <= 9 (12 thorough) against brute force. "
+              "quantile), sampled natural_breaks; precision edges (reclassify, _cpu_bin): float32 / float64 / int32 / int64 "
+              "cells with float64 bounds on, one ulp of either precision beside, and half way between the cells "
+              "(decimals, thirds, integers beyond 2^24, subnormals, 1e38), through _run_numpy_bin's casts; Jenks tables on sorted samples n <= 9 (12 thorough) against brute force. "
               "non-trivial = distinct case with at least two distinct finite values")
     try:
         check_facts(r, drv)
@@ -966,6 +1104,7 @@ def run(r, scale=1):
         res = eval_case(r, c)
     stream_cpu_bin(r, drv)
     rng = r.rng
+    stream_round32(r, drv, 60 * n)
     stream_generic(r, drv, "reclassify", [gen_reclass(rng) for _ in range(250 * n)])
     stream_generic(r, drv, "binary", [gen_binary(rng) for _ in range(200 * n)])
     stream_generic(r, drv, "equal_interval", [gen_equal_interval(rng) for _ in range(250 * n)]
@@ -985,7 +1124,8 @@ def search(r):
     targeted = []
     targeted += [gen_natural(rng, t) for t in ("f32x", "bigint", "fallback-sampled", "sampled") for _ in range(150)]
     targeted += [gen_quantile(rng, k) for k in QUANTILE_KS for _ in range(6)]
-    targeted += [gen_equal_interval(rng) for _ in range(300)] + [gen_reclass(rng) for _ in range(400)]
+    targeted += [gen_reclass(rng, edges=True) for _ in range(400)]
+    targeted += [gen_equal_interval(rng) for _ in range(300)] + [gen_reclass(rng, edges=False) for _ in range(400)]
     targeted += [gen_binary(rng) for _ in range(300)]
     for c in targeted:
         r.case(c, nontrivial=True, tags=["search"])
